@@ -15,8 +15,11 @@ VERIF = os.path.dirname(os.path.dirname(os.path.abspath(__file__)))
 REPO = os.environ.get('VERIF_REPO', '/repo')
 SPEC = os.path.join(VERIF, 'spec')
 HARNESS = os.path.join(VERIF, 'harness')
-EVID = os.path.join(VERIF, 'evidence')
-REPLAY = os.path.join(VERIF, 'replay')
+# VERIF_OUT_DIR: where evidence/ and replay/ are written (default /verif; tools/seedtest.py points it at a scratch
+# directory so that runs against a mutated tree never touch the evidence of the real tree)
+_OUT = os.environ.get('VERIF_OUT_DIR') or VERIF
+EVID = os.path.join(_OUT, 'evidence')
+REPLAY = os.path.join(_OUT, 'replay')
 NCPU = int(os.environ.get('VERIF_WORKERS') or os.cpu_count() or 4)
 
 GOENV = dict(os.environ, GOFLAGS='-mod=mod', GOPROXY='off', GOSUMDB='off', GOTOOLCHAIN='local',
